@@ -29,6 +29,11 @@ class Violation(Exception):
         self.detail = detail
 
 
+class Abandon(Exception):
+    """The rest of this case is not evaluated: it already hit a root cause that was reported
+    earlier in this run (avoids cascades of secondary keys). Never a failure."""
+
+
 def jdump(obj):
     return json.dumps(obj, sort_keys=True, separators=(",", ":"), default=_jdefault)
 
@@ -120,7 +125,7 @@ class Ctx:
             return
         if full in self.suppressed:
             self.suppressed_hits[full] += 1
-            return
+            raise Abandon(full)
         raise Violation(full, what, detail)
 
     def must(self, fn, key, what):
@@ -212,6 +217,8 @@ def safe_run(ctx, sub, case):
     raised), anything else is a harness error and propagates"""
     try:
         return sub.run(ctx, case)
+    except Abandon:
+        return None
     except (Violation, env.HarnessError):
         raise
     except Exception as e:  # noqa
@@ -219,6 +226,94 @@ def safe_run(ctx, sub, case):
         if where is None:
             raise
         ctx.fail(f"unexpected-exception/{type(e).__name__}@{where}", f"library raised {type(e).__name__}: {str(e)[:200]}")
+
+
+def guard(ctx, fn):
+    """safe_run for an arbitrary callable (used by history interpreters)"""
+    try:
+        return fn()
+    except (Violation, env.HarnessError, Abandon):
+        raise
+    except Exception as e:  # noqa
+        where = lib_frame(e)
+        if where is None:
+            raise
+        ctx.fail(f"unexpected-exception/{type(e).__name__}@{where}", f"library raised {type(e).__name__}: {str(e)[:200]}")
+
+
+def run_history(ctx, case, interp_factory, summarize):
+    """the replay path of every history property: interpret init + ops, no Hypothesis involved"""
+    it = interp_factory(ctx, case["init"])
+    try:
+        for op in case["ops"]:
+            guard(ctx, lambda: it.apply(op))
+        guard(ctx, it.finish)
+    except Abandon:
+        ctx.hist["abandoned-after-reported-failure"] += 1
+        return
+    finally:
+        it.close()
+    nontrivial, labels = summarize(it, case)
+    ctx.case(case, nontrivial, labels=labels)
+    ctx.hist["steps"] += len(case["ops"])
+
+
+def build_machine(ctx, interp_factory, init_strategy, op_strategy, summarize):
+    """A RuleBasedStateMachine that only *generates*: every step appends a JSON-able op to the
+    history and hands it to the same interpreter run_history uses."""
+    import copy
+
+    from hypothesis.stateful import RuleBasedStateMachine, initialize, rule
+
+    class Machine(RuleBasedStateMachine):
+        def __init__(self):
+            super().__init__()
+            self.it = None
+            self.failed = False
+            self.case = {"init": None, "ops": []}
+
+        def _do(self, fn):
+            try:
+                guard(ctx, fn)
+            except Abandon:
+                self.failed = True
+                ctx.hist["abandoned-after-reported-failure"] += 1
+            except Violation as v:
+                self.failed = True
+                if ctx.best is not None:
+                    ctx.best.offer(v, copy.deepcopy(self.case))
+                raise
+
+        @initialize(init=init_strategy)
+        def start(self, init):
+            self.case["init"] = init
+            ctx.current = self.case
+            if ctx.out_of_time():
+                return
+            self._do(lambda: setattr(self, "it", interp_factory(ctx, init)))
+
+        @rule(op=op_strategy)
+        def step(self, op):
+            if self.it is None or self.failed:
+                return
+            self.case["ops"].append(op)
+            ctx.current = self.case
+            self._do(lambda: self.it.apply(op))
+
+        def teardown(self):
+            if self.it is None:
+                return
+            try:
+                if not self.failed:
+                    ctx.current = self.case
+                    self._do(self.it.finish)
+                    nontrivial, labels = summarize(self.it, self.case)
+                    ctx.case(self.case, nontrivial, labels=labels)
+                    ctx.hist["steps"] += len(self.case["ops"])
+            finally:
+                self.it.close()
+
+    return Machine
 
 
 class _Best:
